@@ -8,6 +8,11 @@ NOT_APPLICABLE = {
     'C03': 'C++ exception capture/transport/rethrow: CBMC\'s usable front end here is C, extraction drops try/catch, so no contract can mention the behaviour (DESIGN.md §6)',
 }
 CLAIMS = {
+    'C13': {
+        'technique': 'CBMC dfcc loop contracts for the bookkeeping and memory safety of heapify/reheap at every size; bounded unwinding (labelled bounded) for heap order, multiset preservation and whole batches through handle_operations, all on text sliced from concurrent_priority_queue.h',
+        'text': 'For every heap size: reheap removes exactly one element, heapify merges all, mark never exceeds size, every index is in bounds. Bounded (<= 6 elements quick / 9 thorough; batches of <= 3 operations on <= 4 elements): data[0..mark) stays a max-heap, the multiset is preserved, every operation of a batch gets a status, size changes by +-1 per success, a pop fails only on an empty queue and never returns less than an element queued before the batch that is still queued.',
+        'note': 'Trusted: std::vector modelled as array+length, Compare=std::less<int>, the aggregator runs the handler on one thread at a time. Not decided: heap order beyond the bound (needs quantifiers), aggregator exclusivity, linearizability across batches, exceptions from element copy.',
+    },
     'C10': {
         'technique': 'CBMC loop-free / width-bounded-unwinding harnesses on the segment, mask and parent arithmetic sliced from concurrent_hash_map.h',
         'text': 'For all 2^64 bucket indices the bucket->(segment,offset) map is a bijection onto tiling segments and get_bucket lands inside the segment allocation; for every hash and every pair of masks m_old < m, check_rehashing_collision examines exactly the bucket the key occupied at the first table size where it left its old bucket and reports a collision iff that bucket is already rehashed; the parent of bucket h is h with its top bit cleared (smaller index), its mask the parent mask extended by one bit.',
